@@ -154,7 +154,6 @@ class Model(Object):
         return self._solver
 
     @solver.setter
-    @resettable
     def solver(self, value: Union[str, ModuleType]) -> None:
         """Set the attached solver instance.
 
@@ -174,6 +173,13 @@ class Model(Object):
         # Do nothing if the solver did not change
         if self.problem == interface:
             return
+        context = get_context(self)
+        if context:
+            # Put the very same solver object back on exit: the undo functions
+            # recorded before the switch are bound to it (solver.add / solver.remove,
+            # the saved objective and its variables); those recorded after the
+            # switch have run by then.
+            context(partial(setattr, self, "_solver", self._solver))
         self._solver = interface.Model.clone(self._solver)
 
     @property
